@@ -44,6 +44,7 @@ def inputs():
     ws2 = S.workspace(spec2)
     ws2["measurements"][0]["name"] = "other"
     patch = [{"op": "replace", "path": "/channels/0/samples/0/data/0", "value": 17.5}, {"op": "replace", "path": "/observations/0/data/1", "value": 31.0}]
+    patch2 = [{"op": "replace", "path": "/channels/0/samples/1/data/1", "value": 21.25}, {"op": "replace", "path": "/channels/0/samples/0/data/0", "value": 16.0}]
     import hashlib
 
     dig = lambda o, a: getattr(hashlib, a)(json.dumps(o, sort_keys=True, ensure_ascii=False).encode("utf8")).hexdigest()
@@ -51,7 +52,7 @@ def inputs():
                 "version": "1.0.0",
                 "patches": [{"metadata": {"name": "pA", "values": [1, 2]}, "patch": patch},
                             {"metadata": {"name": "values", "values": [3, 4]}, "patch": [{"op": "remove", "path": "/measurements/2"}]}]}
-    return dict(ws=ws, ws2=ws2, patch=patch, patchset=patchset, notjson="{ this is not json", invalid={"channels": []})
+    return dict(ws=ws, ws2=ws2, patch=patch, patch2=patch2, patchset=patchset, notjson="{ this is not json", invalid={"channels": []})
 
 
 # ----------------------------------------------------------------------------- per-subcommand option alphabets: name -> list of (argv fragment, python kwargs)
@@ -59,7 +60,7 @@ def alphabets():
     A = {}
     A["cls"] = {
         "measurement": [(["--measurement", "second"], {"measurement": "second"}), (["--measurement", "missing"], {"measurement": "missing"})],
-        "patch": [(["--patch", "@patch"], {"patch": True})],
+        "patch": [(["--patch", "@patch"], {"patch": True}), (["--patch", "@patch", "--patch", "@patch2"], {"patch": 2})],
         "test_poi": [(["--test-poi", "0.5"], {"test_poi": 0.5}), (["--test-poi", "2.0"], {"test_poi": 2.0})],
         "test_stat": [(["--test-stat", "q"], {"test_stat": "q"})],
         "backend": [(["--backend", "pytorch"], {"backend": "pytorch"}), (["--backend", "jax"], {"backend": "jax"})],
@@ -98,7 +99,8 @@ def alphabets():
     A["patchset verify"] = {"background": [(["@ws2"], {"background": "ws2"})]}
     A["patchset inspect"] = {}
     A["json2xml"] = {"specroot": [(["--specroot", "cfg"], {"specroot": "cfg"})], "dataroot": [(["--dataroot", "dat"], {"dataroot": "dat"})],
-                     "resultprefix": [(["--resultprefix", "Res"], {"resultprefix": "Res"})], "patch": [(["--patch", "@patch"], {"patch": True})]}
+                     "resultprefix": [(["--resultprefix", "Res"], {"resultprefix": "Res"})],
+                     "patch": [(["--patch", "@patch"], {"patch": True}), (["--patch", "@patch", "--patch", "@patch2"], {"patch": 2})]}
     return A
 
 
@@ -142,7 +144,7 @@ def plan(tier, seed):
 def lib_model(ws, kw, inp):
     import pyhf
 
-    patches = [inp["patch"]] if kw.get("patch") else []
+    patches = ([inp["patch"]] + ([inp["patch2"]] if kw.get("patch") == 2 else [])) if kw.get("patch") else []
     w = pyhf.Workspace(copy.deepcopy(ws))
     return w, w.model(measurement_name=kw.get("measurement"), patches=patches, modifier_settings={"normsys": {"interpcode": "code4"}, "histosys": {"interpcode": "code4p"}})
 
@@ -177,7 +179,7 @@ def oracle(cmd, kw, inp, tmp):
     if cmd == "fit":
         tl = set_cli_backend(kw)
         w = pyhf.Workspace(copy.deepcopy(ws))
-        model = w.model(measurement_name=kw.get("measurement"), patches=[inp["patch"]] if kw.get("patch") else [])
+        model = w.model(measurement_name=kw.get("measurement"), patches=([inp["patch"]] + ([inp["patch2"]] if kw.get("patch") == 2 else [])) if kw.get("patch") else [])
         fr = pyhf.infer.mle.fit(w.data(model), model, return_fitted_val=kw.get("value", False))
         pars = fr[0] if kw.get("value") else fr
         out = {"mle_parameters": {n: tl.tolist(pars[s["slice"]]) for n, s in model.config.par_map.items()}}
@@ -235,6 +237,8 @@ def oracle(cmd, kw, inp, tmp):
         spec["measurements"] = spec["measurements"][:2]
         if kw.get("patch"):
             spec = jsonpatch.JsonPatch(inp["patch"]).apply(spec)
+            if kw.get("patch") == 2:
+                spec = jsonpatch.JsonPatch(inp["patch2"]).apply(spec)
         d = Path(tmp) / "lib"
         (d / kw.get("specroot", "config")).mkdir(parents=True)
         (d / kw.get("dataroot", "data")).mkdir(parents=True)
@@ -272,7 +276,7 @@ def eval_case(case):
     tmp = tempfile.mkdtemp(prefix="vc19_")
     try:
         files = {}
-        for name in ("ws", "ws2", "patch", "patchset", "invalid"):
+        for name in ("ws", "ws2", "patch", "patch2", "patchset", "invalid"):
             p = os.path.join(tmp, name + ".json")
             doc = inp[name]
             if name == "ws" and cmd == "json2xml":
